@@ -9,12 +9,16 @@ package loggers
 //@ iface Logger.SupportsColors
 //@   assigns nothing
 //@   ensures [constant-per-logger] result == ufb_colours(id(arg0))
+// Writing a message changes the logger's own state (its lock, its queue) and
+// what has been printed, nothing else. The implementations are verified
+// against these two contracts (props: implements); SupportsColors' contract is
+// a modelling assumption (each implementation returns a literal).
 //@ iface Logger.Raw
-//@   assigns nothing
+//@   assigns reach(arg0), g_stdout
 //@ iface Logger.RawWithColors
 //@   requires [colours-supported] ufb_colours(id(arg0))
 //@   requires [lossless] ufs_plain(arg3) == arg2
-//@   assigns nothing
+//@   assigns reach(arg0), g_stdout
 
 //@ type fout invariant [parts] self.file != nil && self.stdout != nil
 //@ type file invariant [queue] self.bufferCh != nil
